@@ -147,6 +147,40 @@ def run(ctx):
         ctx.fail("C19.R1", "fahrenheit", cv.file, cv.node.lineno, cv.qual,
                  f"convert(n) = {[repr(f) for f in forms]}; documented C*9/5+32")
 
+    # ... for EVERY reading, 0 included (0 degrees C is 32 F): the conversion is reached
+    # iff the reading is not None - evaluated on the guards of the returned formula
+    from .c15 import eval_pred as _ep
+    ccfg = A.cfg(cv)
+    npar = cv.node.args.args[0].arg if cv.node.args.args else "n"
+    verdicts = []
+    for rn in [x for x in ccfg.nodes if x.kind == "return" and x.stmt.value is not None
+               and any(isinstance(y, ast.BinOp) for y in ast.walk(x.stmt.value))]:
+        gs = [(e_, p_) for e_, p_, _ in ccfg.guards(rn) if p_ in (True, False)]
+        v_ = rn.stmt.value
+        if isinstance(v_, ast.IfExp):       # `F(n) if fahrenheit else n`
+            gs.append((v_.test, True if any(isinstance(y, ast.BinOp) for y in ast.walk(v_.body))
+                       else False))
+        for val, want_ in ((0, True), (0.0, True), (-5.5, True), (25, True), (None, False)):
+            reach, und = True, False
+            for e_, p_ in gs:
+                r_ = _ep(e_, {npar: val, "fahrenheit": True})
+                if r_ not in (True, False):
+                    und = True
+                elif r_ is not p_:
+                    reach = False
+            verdicts.append((val, want_, reach, und))
+    if verdicts and all(not u and r == w for _, w, r, u in verdicts):
+        ctx.ok("C19.R1", "fahrenheit:every-reading", sample="converted for 0, 0.0, negative and "
+               "positive readings; None stays None")
+    elif not verdicts or any(u for *_, u in verdicts):
+        ctx.advisory("C19.R1 fahrenheit:every-reading: guard outside the evaluated subset; not decided")
+        ctx.ok("C19.R1", "fahrenheit:every-reading", sample="not decided", nontrivial=False)
+    else:
+        bad_ = [v for v, w, r, u in verdicts if r != w]
+        ctx.fail("C19.R1", "fahrenheit:every-reading", cv.file, cv.node.lineno, cv.qual,
+                 f"with fahrenheit=True the reading(s) {bad_} are not converted like the others "
+                 f"(a reading of 0 degrees C must come out as 32 F; truthiness is not the test)")
+
     # ------------------------------------------------------------------- R2
     ctx.rule("C19.R2", "per-entry tolerance: each read of a sensor's reading file "
              "sits in the loop inside a try whose handler covers OSError and skips "
